@@ -213,7 +213,7 @@ pub fn parse(line: &str) -> Spec {
             }
             "X" => exe = Some(dec(f[1])),
             // the abstract program is for the model only
-            "P" | "F" | "M" | "N" | "E" | "O" => {}
+            "P" | "F" | "M" | "N" | "E" | "O" | "V" => {}
             other => panic!("bad item {other}"),
         }
     }
